@@ -391,6 +391,7 @@ pub fn c10(tier: Tier, _seed: u64) -> Prop {
             }
             json!({"states": iters.max(1), "transitions": iters.max(1), "traces_validated_against_impl": runs, "complete_runs": runs, "max_deviations_completed": "see units: every k up to the tier's bound"})
         }),
+        profiles: vec!["release"],
     }
 }
 
